@@ -3,9 +3,10 @@
    the extracted runner executes (Model.Run.f_new / f_get = Model.Conv.to_base / from_base at
    the IEEE instance), for EVERY precision/exponent range, every base-unit vector, every dimension
    vector of any length, every value (signed zeros, infinities, subnormals, NaN included). *)
-From Coq Require Import ZArith Bool List.
+From Coq Require Import ZArith Reals Bool List.
 From Flocq Require Import Core BinarySingleNaN.
-From UomV Require Import Model.Tables Model.Conv Model.FloatM Model.Run Proofs.FloatLemmas Proofs.ConvFloat.
+From UomV Require Import Model.Tables Model.Conv Model.FloatM Model.Quantity Model.Storages Model.Run Proofs.FloatLemmas Proofs.ConvFloat
+  Proofs.Tree Proofs.PowR Proofs.ErrBound.
 Import ListNotations.
 Open Scope Z_scope.
 
@@ -82,6 +83,51 @@ Theorem c03_base_unit_roundtrip :
 Proof. intros lib U d coef v Hk Hf. rewrite c03_base_unit_new_identity by assumption. exact (c03_base_unit_get_identity lib U d coef v Hk Hf). Qed.
 
 End Stmt.
+
+(* (6) ACCURACY, any precision, any base-unit vector, any exponents, either power algorithm: for an
+   offset-free unit, whenever no intermediate overflows or underflows (Safe: every intermediate
+   product/quotient of the expression, as a real, lies in the normal range), construction stores
+   and read-back returns the conversion formula within (1/(1-u))^n - 1 relative, n = the number of
+   floating-point operations the expression performs (a few ulps: n is 2 with default base units).
+   factor_R is the exact (real-arithmetic) product of the base-unit coefficients' integer powers. *)
+Section Accuracy.
+Variables prec emax : Z.
+Context (Hprec : Prec_gt_0 prec) (Hmax : Prec_lt_emax prec emax).
+Notation fl := (binary_float prec emax).
+Notation ev := (eval_f prec emax Hprec Hmax).
+Open Scope R_scope.
+
+Theorem c03_new_relative_error :
+  forall lib U d coef (v : fl),
+    let t := to_base_tree prec emax Hprec Hmax lib (map ev U) d (ev coef) v in
+    Safe prec emax Hprec Hmax t ->
+    f_new prec emax Hprec Hmax lib U d coef None v = evalF prec emax Hprec Hmax t
+    /\ is_finite (evalF prec emax Hprec Hmax t) = true
+    /\ Rabs (B2R (evalF prec emax Hprec Hmax t) - B2R v * B2R (ev coef) / factor_R prec emax lib (map ev U) d)
+       <= (H prec ^ ops prec emax t - 1) * Rabs (B2R v * B2R (ev coef) / factor_R prec emax lib (map ev U) d).
+Proof. intros lib U d coef v t St. exact (to_base_relerr prec emax Hprec Hmax lib (map ev U) d (ev coef) v St). Qed.
+
+Theorem c03_get_relative_error :
+  forall lib U d coef (v : fl),
+    let t := from_base_tree prec emax Hprec Hmax lib (map ev U) d (ev coef) v in
+    Safe prec emax Hprec Hmax t ->
+    f_get prec emax Hprec Hmax lib U d coef None v = evalF prec emax Hprec Hmax t
+    /\ is_finite (evalF prec emax Hprec Hmax t) = true
+    /\ Rabs (B2R (evalF prec emax Hprec Hmax t) - B2R v * factor_R prec emax lib (map ev U) d / B2R (ev coef))
+       <= (H prec ^ ops prec emax t - 1) * Rabs (B2R v * factor_R prec emax lib (map ev U) d / B2R (ev coef)).
+Proof. intros lib U d coef v t St. exact (from_base_relerr prec emax Hprec Hmax lib (map ev U) d (ev coef) v St). Qed.
+
+(* the integer power computed by the std build's loop is the real power x^e (so factor_R is prod U_i^d_i) *)
+Theorem c03_std_power_is_real_power :
+  forall (a : R) (e : Z), (Z.abs e < 2 ^ 40)%Z ->
+    powi_std Rmult Rdiv 1 a e = if (e <? 0)%Z then 1 / a ^ Z.to_nat (- e) else a ^ Z.to_nat e.
+Proof. intros a e He. exact (powi_std_R a e He). Qed.
+End Accuracy.
+
+(* the operation count for the default base: one multiplication for a coefficient >= 1 ... *)
+Example c03_ops_default_base :
+  ops 53 1024 (to_base_tree 53 1024 p64 m64 LibStd (map (eval_f 53 1024 p64 m64) [ELit 1 0; ELit 1 0; ELit 1 0]) [1; 0; -1] (eval_f 53 1024 p64 m64 (ELit 36 (-1))) (fone 53 1024 p64 m64)) = 8%nat.
+Proof. vm_compute. reflexivity. Qed.
 
 (* ---- non-vacuity: the premises are met by real unit/base combinations (binary64) ---- *)
 Definition one_e := ELit 1 0.
